@@ -50,13 +50,32 @@ pub fn parse_obs(t: usize, h: &str) -> Option<Obs> {
     if defined { Some(o) } else { None }
 }
 
-pub fn display_obs(t: usize, v: u64) -> Option<Obs> {
+/// Display through the k-th format spec (same order as `fmtSpecs` in the Lean driver)
+pub fn fmt_spec<T: core::fmt::Display>(x: &T, k: usize, out: &mut dyn core::fmt::Write) -> Option<()> {
+    match k {
+        0 => write!(out, "{}", x).ok(),
+        1 => write!(out, "{:5}", x).ok(),
+        2 => write!(out, "{:05}", x).ok(),
+        3 => write!(out, "{:<5}", x).ok(),
+        4 => write!(out, "{:+}", x).ok(),
+        5 => write!(out, "{:.2}", x).ok(),
+        6 => write!(out, "{:^7}", x).ok(),
+        7 => write!(out, "{:*>6}", x).ok(),
+        8 => write!(out, "{:+07}", x).ok(),
+        9 => write!(out, "{:>1}", x).ok(),
+        10 => write!(out, "{:_^+8}", x).ok(),
+        _ => None,
+    }
+}
+pub const FMT_SPECS: usize = 11;
+
+pub fn display_obs(t: usize, v: u64, k: usize) -> Option<Obs> {
     let (_, _, mx) = g::newtype_info(t);
     if v > mx { return None; }
     let mut defined = true;
     let o = guarded(|o| {
         let mut s = String::new();
-        match g::nt_display(t, v, &mut s) {
+        match g::nt_display(t, v, k, &mut s) {
             None => defined = false,
             Some(()) => for b in s.bytes() { o.n(b as i64) },
         }
